@@ -962,8 +962,13 @@ void XdlEncoder::new_string(const char* x)
 			_out << "\\t"; break;
 		case '\f':
 			_out << "\\f"; break;
+		case '\b':
+			_out << "\\b"; break;
 		default:
-			_out << c;
+			if ((unsigned char)c < 0x20) // other control characters must be escaped (and the decoder rejects them raw)
+				_out << "\\u00" << "0123456789abcdef"[(c >> 4) & 15] << "0123456789abcdef"[c & 15];
+			else
+				_out << c;
 		}
 	}
 	_out << '\"';
